@@ -269,7 +269,7 @@ def jobs(tier):
                     if q and sst == 2 and (wst == 2 or nst == 2):
                         continue
                     out.append(Job(f"struct-mb{mb}-nst{nst}-wst{wst}-sst{sst}", "checks.c03:body_structural",
-                                   {"N": 8 if q else 11,
+                                   {"N": 8 if q else ((13 if mb < 3 else 12) if nst == 4 else (10 if mb == 2 else 8) if (mb >= 2 and nst == 1 and sst == 1) else 11),
                                     "cfg": {"max_buckets": mb, "new_sample_thresh": nst, "window_size_thresh": wst,
                                             "subwindow_size_thresh": sst}},
                                    expect=("cut",), opts={"validate": 1}))
